@@ -24,6 +24,7 @@ fn base(name: &str, t: &str) -> Field {
 }
 fn func(name: &str, args: Vec<Arg>, ret: Option<Ty>, addr: Option<u64>) -> Func {
     Func {
+        sty: 0,
         vis: true,
         name: name.into(),
         doc: vec![],
@@ -200,6 +201,20 @@ pub fn demos() -> Vec<Demo> {
             stem: "F24-user-function-named-vftable",
             prop: "C13/type-checks",
             case: l2case(Prog { mods: vec![m] }, 8),
+        });
+    }
+    // F30 (C13): a virtual function without a receiver: the wrapper needs `self` to find the table
+    {
+        let mut t = ty("T", vec![f("a", Ty::n("u64"))]);
+        t.vft = Some(Vft {
+            size: None,
+            funcs: vec![func("make", vec![Arg::Named("a".into(), Ty::n("u32"))], None, None)],
+        });
+        v.push(Demo {
+            property: "C13",
+            stem: "F30-virtual-function-without-receiver",
+            prop: "C13/type-checks",
+            case: l2case(Prog { mods: vec![module(&["m"], vec![Item::Type(t)])] }, 8),
         });
     }
     // F25 (C02/C13): a by-value `void` member: resolved size 0, emitted as c_void (size 1)
